@@ -247,10 +247,15 @@ class Regex(RegexReader):
 
     def _process_to_enfa_son(self, s_from, s_to, index_son):
         # pylint: disable=protected-access
-        self.sons[index_son]._counter = self._counter
-        self.sons[index_son]._enfa = self._enfa
-        self.sons[index_son]._process_to_enfa(s_from, s_to)
-        self._counter = self.sons[index_son]._counter
+        son = self.sons[index_son]
+        # The son is a regex of its own: give it back its state afterwards
+        previous_counter, previous_enfa = son._counter, son._enfa
+        son._counter = self._counter
+        son._enfa = self._enfa
+        son._process_to_enfa(s_from, s_to)
+        self._counter = son._counter
+        if son is not self:
+            son._counter, son._enfa = previous_counter, previous_enfa
 
     def get_tree_str(self, depth: int = 0) -> str:
         """ Get a string representation of the tree behind the regex
